@@ -20,6 +20,7 @@ DECIDED = ("R1 dispatch: no checker -> all six piece generators without check re
 DECIDED = DECIDED + ' R6 (numbered apart from the clause above) premise re-run here: the cached `checkers` / `pinned` sets the generator filters by are computed exactly, from scratch and incrementally (C03.R3, R5, R6).'
 DECIDED = DECIDED + ' R3 also: the king-step filter may be an explicit loop or `.filter(|d| board.is_legal_king_position(d)).collect()` (closure evaluated); the ray scan of is_legal_king_position may be a loop or `.any(closure)`; the castling (side, files, safe files) table is compared by value wherever it is written; the final emptiness tests are decided over the 8 emptiness combinations of the three attacker sets. R2: check_mask takes the king square or looks it up itself (own king of the side to move). R5: `x == 0` / `x != 0` tests normalised.'
 DECIDED = DECIDED + ' R90 premises re-run here: C09 C09.R1, C09.R2, C09.R3; C08 C08.R1, C08.R2; C02 C02.R9.'
+DECIDED = DECIDED + ' R7 every loop over candidate pieces in the generators (pawn, generic, king; and their private helpers) is left only by exhausting its iterator (no break / early return that would drop the remaining candidates).'
 NOT_DECIDED = ("which squares actually come out on a given position: the meaning of the bitboard formulas on real boards is not decided statically (the lookups themselves are C08/C09); "
                "'each exactly once' relies on C10's entry list semantics")
 EXPLANATION = ("K4 path summaries with the generic-iteration abstraction: for each generator the iteration domain, the pushed entry and its guards are extracted as terms and compared, "
@@ -527,6 +528,48 @@ def r3(ctx):
 
 def C_all(P, board):
     return None
+
+
+@rule("C01.R7", "the piece loops of the generators run to exhaustion: a loop over candidate pieces is left only when its iterator is empty")
+def r7(ctx):
+    """`if attacked { continue }` skips one candidate; `break` (or an early `return`) in its place also drops every later candidate - the second
+    pawn that could capture en passant, the pieces after a pinned one."""
+    P = ctx.P
+    keys = [f"<{PT}Pawn as {PT}PieceType>::legals", PT + "PieceType::legals", PT + "King::king_legals"]
+    n = 0
+    for key in keys:
+        if key not in P.fns:
+            continue
+        fam = [k for k in k2.private_closure(P, key) if "{closure" not in k and P.fns[k]["crate"] == "chess_movegen" and (k == key or P.fns[k].get("vis") != "pub")]
+        for k in sorted(fam):
+            body = P.body(k)
+            c = cfg_of(body)
+            for h, bl in c.loops().items():
+                if not any(body["blocks"][b]["t"]["k"] == "call" and body["blocks"][b]["t"]["f"].get("fn", "").endswith("Iterator>::next") for b in bl):
+                    continue
+                # only loops that produce move-list entries (a scan that answers a yes/no question may stop at the first hit)
+                def pushes(fn_, depth=0):
+                    if "push_unchecked" in fn_ or (fn_.endswith("::push") and "ArrayVec" in fn_):
+                        return True
+                    k_ = T.strip_generics(fn_)
+                    return depth < 3 and k_ in P.fns and P.fns[k_]["crate"] == "chess_movegen" and any(pushes(t2["f"].get("fn", ""), depth + 1) for _, t2 in P.calls(k_))
+                if not any(body["blocks"][b]["t"]["k"] == "call" and pushes(body["blocks"][b]["t"]["f"].get("fn", "")) for b in bl):
+                    continue
+                n += 1
+                bad = []
+                for x in bl:
+                    for s_ in c.succ[x]:
+                        if s_ in bl or body["blocks"][s_]["t"]["k"] == "unreachable" or body["blocks"][s_].get("cleanup"):
+                            continue
+                        t_ = body["blocks"][x]["t"]
+                        d = k2.describe_operand(P, body, t_["d"]) if t_["k"] == "switch" else None
+                        exhausted = bool(d) and d[0] == "discr" and d[1][0] == "call" and d[1][1].endswith("Iterator>::next")
+                        panics = body["blocks"][s_]["t"]["k"] == "call" and body["blocks"][s_]["t"].get("t") is None
+                        if not exhausted and not panics and t_["k"] != "assert" and not (t_["k"] == "call" and s_ != t_.get("t")):
+                            bad.append((x, s_))
+                ctx.ob(f"{T.short(k)[:60]} loop@{sorted(c.loops()).index(h)}", not bad, f"{k}: a loop over candidate pieces can be left at {bad[:2]} before its iterator is exhausted (break / early return): "
+                       "the remaining candidates get no moves", site=body.get("def_span"), sample={"loop_header": h})
+    ctx.floor("piece loops", n, 4)
 
 
 @rule("C01.R6", "premise: the cached checkers / pinned sets the generator reads are computed exactly (C03.R3, C03.R5, C03.R6 re-run)")
